@@ -25,6 +25,8 @@ pub enum Sched {
     Random(u64, usize),
     /// Reads never cross these absolute offsets (sorted); otherwise as large as possible.
     Cuts(Vec<usize>),
+    /// At most n bytes per read, and every k-th call fails once with ErrorKind::Interrupted.
+    Interrupted(usize, u64),
 }
 
 impl Sched {
@@ -35,6 +37,7 @@ impl Sched {
             Sched::Fixed(n) => format!("fixed:{n}"),
             Sched::Random(s, m) => format!("random:{s}:{m}"),
             Sched::Cuts(c) => format!("cuts:{}", c.iter().map(|x| x.to_string()).collect::<Vec<_>>().join(",")),
+            Sched::Interrupted(n, k) => format!("interrupted:{n}:{k}"),
         }
     }
     pub fn parse(s: &str) -> Option<Sched> {
@@ -44,6 +47,7 @@ impl Sched {
             "one" => Some(Sched::One),
             "fixed" => Some(Sched::Fixed(parts.get(1)?.parse().ok()?)),
             "random" => Some(Sched::Random(parts.get(1)?.parse().ok()?, parts.get(2)?.parse().ok()?)),
+            "interrupted" => Some(Sched::Interrupted(parts.get(1)?.parse().ok()?, parts.get(2)?.parse().ok()?)),
             "cuts" => {
                 let v = parts.get(1).copied().unwrap_or("");
                 let mut c = vec![];
@@ -96,7 +100,11 @@ impl<'a> SchedReader<'a> {
             Sched::Random(s, _) => *s,
             _ => 0,
         };
-        SchedReader { data, pos: 0, sched, rng: Rng::new(seed), fault_at: None, fault_kind: io::ErrorKind::Other, interrupt_every: None, log: Rc::new(RefCell::new(ReadLog::default())) }
+        let interrupt_every = match &sched {
+            Sched::Interrupted(_, k) => Some((*k).max(2)),
+            _ => None,
+        };
+        SchedReader { data, pos: 0, sched, rng: Rng::new(seed), fault_at: None, fault_kind: io::ErrorKind::Other, interrupt_every, log: Rc::new(RefCell::new(ReadLog::default())) }
     }
     pub fn with_interrupts(mut self, every: u64) -> Self {
         self.interrupt_every = Some(every.max(2));
@@ -148,7 +156,7 @@ impl<'a> Read for SchedReader<'a> {
         let want = match &self.sched {
             Sched::All => avail,
             Sched::One => 1,
-            Sched::Fixed(n) => (*n).max(1),
+            Sched::Fixed(n) | Sched::Interrupted(n, _) => (*n).max(1),
             Sched::Random(_, max) => 1 + self.rng.below((*max).max(1)),
             Sched::Cuts(c) => {
                 // up to the next cut strictly after pos
@@ -173,6 +181,12 @@ pub enum FaultStyle {
     ShortThenFail,
     /// Reject the whole write call that would cross the fault offset.
     RejectCrossing,
+    /// Accept the bytes up to the fault offset, then accept nothing more: every later write
+    /// returns Ok(0) (what a full fixed-size buffer such as `&mut [u8]` does).
+    ZeroLen,
+    /// Accept the bytes up to the fault offset, then fail ONE write call with this kind of error;
+    /// later calls are accepted again (a transient condition: WouldBlock, Interrupted, TimedOut...).
+    TransientOnce(io::ErrorKind),
 }
 
 #[derive(Default, Debug, Clone)]
@@ -238,7 +252,14 @@ impl Write for MonWriter {
             if room == 0 || (self.style == FaultStyle::RejectCrossing && n > room) {
                 log.faults_returned += 1;
                 self.faulted = true;
-                return Err(io::Error::new(io::ErrorKind::Other, WRITE_MARK));
+                match self.style {
+                    FaultStyle::ZeroLen => return Ok(0),
+                    FaultStyle::TransientOnce(kind) => {
+                        self.fault_at = None;
+                        return Err(io::Error::new(kind, WRITE_MARK));
+                    }
+                    _ => return Err(io::Error::new(io::ErrorKind::Other, WRITE_MARK)),
+                }
             }
             n = n.min(room);
         }
